@@ -32,7 +32,7 @@ SUB10 = [UNIVERSE[i] for i in (0, 1, 2, 3, 5, 6, 8, 9, 11, 13)]
 SKIP = "skip"
 
 
-def run_walk(world, perm, db, via_wrapper, expected):
+def run_walk(world, perm, db, via_wrapper, expected, bulk=0, budget=80):
     """
     Walk the roots in listing order *perm*.  Returns (problem or None, expected).
     The expectation is derived from the same database *after* the first run so
@@ -45,19 +45,23 @@ def run_walk(world, perm, db, via_wrapper, expected):
         if via_wrapper:
             from puresnmp.api.pythonic import PyWrapper
             wrapper = PyWrapper(world.client)
-            if len(perm) == 1:
-                items = world.collect(wrapper.walk(ber.oid_str(perm[0])), budget=80)
+            if bulk:
+                items = world.collect(wrapper.bulkwalk([ber.oid_str(r) for r in perm], bulk_size=bulk), budget=budget)
+            elif len(perm) == 1:
+                items = world.collect(wrapper.walk(ber.oid_str(perm[0])), budget=budget)
             else:
-                items = world.collect(wrapper.multiwalk([ber.oid_str(r) for r in perm]), budget=80)
+                items = world.collect(wrapper.multiwalk([ber.oid_str(r) for r in perm]), budget=budget)
             got = [(ber.oid(vb.oid) if isinstance(vb.oid, str) else ("bad", repr(vb.oid)), vb.value) for vb in items]
         else:
-            if len(perm) == 1:
-                items = world.collect(world.client.walk(C.poid(perm[0])), budget=80)
+            if bulk:
+                items = world.collect(world.client.bulkwalk([C.poid(r) for r in perm], bulk_size=bulk), budget=budget)
+            elif len(perm) == 1:
+                items = world.collect(world.client.walk(C.poid(perm[0])), budget=budget)
             else:
-                items = world.collect(world.client.multiwalk([C.poid(r) for r in perm]), budget=80)
+                items = world.collect(world.client.multiwalk([C.poid(r) for r in perm]), budget=budget)
             got = [C.vb_to_ref(vb) for vb in items]
     except Budget:
-        problem = "walk did not end within 80 requests"
+        problem = "walk did not end within %d requests" % budget
     except Exception as exc:  # noqa: BLE001
         fid = world.known_exception(exc)
         if fid and known(fid):
@@ -75,7 +79,7 @@ def run_walk(world, perm, db, via_wrapper, expected):
         return ("order %s: result %r != expected %r" % (
             [ber.oid_str(r[6:]) for r in perm], [ber.oid_str(o[6:]) for o, _ in got],
             [ber.oid_str(o[6:]) for o, _ in want]), expected)
-    if len(perm) == 1 and [o for o, _ in got] != sorted(o for o, _ in got):
+    if len(perm) == 1 and not bulk and [o for o, _ in got] != sorted(o for o, _ in got):
         return "single-root walk not ascending", expected
     if used > len(expected) + len(perm) + 1:
         return "too many requests: %d for %d instances" % (used, len(expected)), expected
